@@ -22,4 +22,7 @@ def run(report, tier, seed):
     order_views.run(report, tier, seed)
 
 
-replay = generic_replay
+def replay(rp):
+    if "obligation" in rp and "function" in rp:
+        return generic_replay(rp)
+    return order_views.replay(rp)
